@@ -400,6 +400,9 @@ func (f *FuncVC) loopHead(fr *frame, li *loopInfo, entry *State) *State {
 		}
 	}
 	li.headState = st.clone()
+	if fr.top {
+		f.reachProbe("reach.loop", st, li.pos, fmt.Sprintf("the head of loop %d is reachable under the preconditions and its invariants", li.ord))
+	}
 	return st
 }
 
@@ -1564,6 +1567,11 @@ func (f *FuncVC) execIndexAddr(fr *frame, st *State, x *ssa.IndexAddr) {
 			f.nilCheck(st, base, x.Pos(), "array")
 			k, _ := kindOfType(arr.Elem())
 			if k == KStruct {
+				if strings.HasPrefix(base.Ref, "(eltref ") || strings.HasPrefix(base.Ref, "-") {
+					// element objects are one level deep only: typeInv states that the base of a negative reference is
+					// a (positive) allocated object
+					f.unsupportedf("struct element of an array that is itself inside an element object")
+				}
 				fr.locs[x] = &Loc{K: LObj, Ref: "(eltref " + base.Ref + " " + idx + ")", Typ: arr.Elem()}
 			} else {
 				fr.locs[x] = &Loc{K: LElem, Ref: base.Ref, Idx: idx, Typ: arr.Elem()}
